@@ -16,3 +16,12 @@ package vm
 //@   requires app != nil
 //@   pure
 //@   ensures result == app.Addr
+
+// contract creation (C09): the creator's nonce is consumed even when the creation fails - the revert point is taken
+// after the nonce increment, so the same signed creation cannot be applied twice
+//@ func (*EVM).create
+//@   props C09
+//@   requires evm != nil && caller != nil
+//@   nosafety
+//@   atcall Snapshot assert [revert-point-is-after-the-creator-nonce-increment] calls(SetNonce) == 1 && calls(Snapshot) == 0
+//@   atcall SetNonce assert [creator-nonce-raised-once-before-the-revert-point] (calls(Snapshot) == 0) == (calls(SetNonce) == 0)
